@@ -20,7 +20,8 @@ class Scheduler:
         self.pops: list[list[int]] = []     # one pop sequence per analysis run
         self.unordered_seen = 0             # worklists whose shipped container was a set
         self.ordered_seen = 0
-        self.max_pops = None                # bounded liveness: cap per analysis run
+        self.max_pops = None                # bounded liveness: fixed cap per analysis run
+        self.bound_fn = None                # ... or a function of the run's block count
         self.requeues = 0
         self.only_unordered = False         # C10: leave deterministic containers alone
 
@@ -37,7 +38,11 @@ class Scheduler:
             return container
         seq: list[int] = []
         self.pops.append(seq)
-        return SchedQueue(list(container), self, seq)
+        q = SchedQueue(list(container), self, seq)
+        # the bound belongs to *this* analysis run (nested function bodies are analysed
+        # through the same hook with their own, possibly much larger, block lists)
+        q.max_pops = self.bound_fn(len(q.items)) if self.bound_fn else self.max_pops
+        return q
 
     def choose(self, q: "SchedQueue") -> object:
         items = q.items  # insertion ordered
@@ -84,6 +89,7 @@ class SchedQueue:
         self.sched = sched
         self.seq = seq
         self.rounds = 0
+        self.max_pops = None
 
     def __len__(self) -> int:
         return len(self.items)
@@ -98,7 +104,7 @@ class SchedQueue:
         return b in self.items
 
     def pop(self, *a):
-        if self.sched.max_pops is not None and len(self.seq) >= self.sched.max_pops:
+        if self.max_pops is not None and len(self.seq) >= self.max_pops:
             raise NoConvergence(len(self.seq))
         b = self.sched.choose(self)
         del self.items[b]
